@@ -73,7 +73,11 @@ var retryableErrs []error = []error{
 	context.DeadlineExceeded,
 }
 
-var errorStrMap map[string]error = map[string]error{}
+// errors in retryableErrs that are not defined via errorDef must be listed here as well,
+// otherwise they are no longer retryable once they have crossed an RPC boundary
+var errorStrMap map[string]error = map[string]error{
+	context.DeadlineExceeded.Error(): context.DeadlineExceeded,
+}
 
 func errorDef(str string, retryable bool) error {
 	err := &Error{
